@@ -104,6 +104,10 @@ def proj_instr(bc):
             out["w"] = word_bytes(int(str(bc.value), 16))
         except Exception:
             out["op"] = "BADPUSH"
+        # with PUSH0 in the instruction set the item PUSH "0" IS the opcode PUSH0 (the tool's documented spelling:
+        # sfs_generator.asm_bytecode.is_push0 / parser_asm.build_asm_bytecode)
+        if constants.push0_enabled and str(bc.value) == "0":
+            out["op"] = "PUSH0"
     elif d == "PUSH0":
         out["op"] = "PUSH0"
     elif d in PSEUDO:
